@@ -63,17 +63,20 @@ def scale(x, c: float):
 class SymRatio:
     """n/d with d != 0 on this path."""
 
-    __slots__ = ("n", "d", "err", "src")
+    __slots__ = ("n", "d", "err", "src", "approx")
 
     def __init__(self, n, d, err=0):
         self.n = n
         self.d = d
         self.src = None  # (x, Fraction(c)) for a const*int product
         self.err = err  # 0, or a bound 1/2^k on |IEEE value - n/d| (inexact const*int product)
+        self.approx = False  # True: exact real value of an expression IEEE would round (see arithmetic)
 
     def _exact_only(self, op):
         if self.err:
             raise Unsupported("%s of an inexact float product (only round() carries the error band)" % op)
+        if self.approx and op in ("ceil", "floor", "trunc", "round"):
+            raise Unsupported("%s of an approximated float expression" % op)
 
     def _site(self, op):
         core.cur().float_sites.add((op, _rng(self.n), _rng(self.d)))
@@ -125,6 +128,7 @@ class SymRatio:
     def __round__(self, nd=None):
         if nd is not None:
             raise Unsupported("round(x, n) on ratio")
+        self._exact_only("round") if not self.err else None
         self._site("round")
         n, d = self._posd()
         if self.err:
@@ -175,12 +179,12 @@ class SymRatio:
                 return self._cmp(int(o), op)
             from fractions import Fraction
 
-            f = Fraction(o)
+            f = Fraction(repr(o)) if self.approx else Fraction(o)
             n1, d1 = self._posd()
             l, r = n1 * f.denominator, f.numerator * d1
         else:
             return NotImplemented
-        self._site("cmp")
+        self._site("cmp-approx" if (self.approx or (isinstance(o, SymRatio) and o.approx)) else "cmp")
         if op == "lt":
             return l < r
         if op == "le":
@@ -222,37 +226,103 @@ class SymRatio:
     def __float__(self):
         raise Unsupported("float() of symbolic ratio")
 
+    # ---- arithmetic.  ratio (+-*/) int stays exact.  ratio (+-*/) ratio-or-float-constant yields an
+    # *approximate real*: the exact rational value of an expression that IEEE would round at every
+    # step.  Such a value may steer control flow (comparisons, zero tests - recorded as sites) but
+    # can never be turned into an integer (ceil/floor/int/round raise Unsupported).
+    @staticmethod
+    def _parts(o):
+        """-> (n, d, approx) of an operand, or None."""
+        from fractions import Fraction
+
+        if isinstance(o, SymRatio):
+            if o.err:
+                raise Unsupported("arithmetic on an inexact float product (only round() carries the error band)")
+            return o.n, o.d, True
+        if isinstance(o, SymBool):
+            o = o.as_int()
+        if isinstance(o, (int, SymInt)):
+            return o, 1, False
+        if isinstance(o, float):
+            if o != o or o in (float("inf"), float("-inf")):
+                raise Unsupported("non-finite float operand")
+            # the decimal value of the literal (0.05 -> 1/20): in approximate-real mode IEEE rounding
+            # is not modelled anyway, and the binary expansion would only add 55-bit constants
+            f = Fraction(repr(o))
+            return f.numerator, f.denominator, True
+        return None
+
+    def _mk(self, n, d, approx):
+        r = SymRatio(n, d)
+        r.approx = bool(approx or self.approx)
+        return r
+
     def __truediv__(self, o):
         self._exact_only("division")
-        if isinstance(o, (int, SymInt)):
-            if bool(o == 0):
-                raise ZeroDivisionError("float division by zero")
-            return SymRatio(self.n, self.d * o)
-        raise Unsupported("ratio / %s" % type(o).__name__)
+        p = SymRatio._parts(o)
+        if p is None:
+            return NotImplemented
+        n, d, a = p
+        if bool(n == 0):
+            raise ZeroDivisionError("float division by zero")
+        return self._mk(self.n * d, self.d * n, a)
+
+    def __rtruediv__(self, o):
+        self._exact_only("division")
+        p = SymRatio._parts(o)
+        if p is None:
+            return NotImplemented
+        n, d, a = p
+        if bool(self.n == 0):
+            raise ZeroDivisionError("float division by zero")
+        return self._mk(n * self.d, d * self.n, True)
 
     def __mul__(self, o):
         self._exact_only("product")
-        if isinstance(o, (int, SymInt)):
-            return SymRatio(self.n * o, self.d)
-        raise Unsupported("ratio * %s" % type(o).__name__)
+        p = SymRatio._parts(o)
+        if p is None:
+            return NotImplemented
+        n, d, a = p
+        return self._mk(self.n * n, self.d * d, a)
 
     __rmul__ = __mul__
 
     def __add__(self, o):
         self._exact_only("sum")
-        if isinstance(o, (int, SymInt)):
-            return SymRatio(self.n + o * self.d, self.d)
-        raise Unsupported("ratio + %s" % type(o).__name__)
+        p = SymRatio._parts(o)
+        if p is None:
+            return NotImplemented
+        n, d, a = p
+        if isinstance(d, int) and isinstance(self.d, int) and d == self.d:
+            return self._mk(self.n + n, self.d, a)
+        return self._mk(self.n * d + n * self.d, self.d * d, a)
 
     __radd__ = __add__
 
     def __sub__(self, o):
         self._exact_only("difference")
-        if isinstance(o, (int, SymInt)):
-            return SymRatio(self.n - o * self.d, self.d)
-        if isinstance(o, SymRatio) and not o.err and isinstance(self.d, int) and isinstance(o.d, int) and self.d == o.d:
-            return SymRatio(self.n - o.n, self.d)
-        raise Unsupported("ratio - %s" % type(o).__name__)
+        p = SymRatio._parts(o)
+        if p is None:
+            return NotImplemented
+        n, d, a = p
+        if isinstance(d, int) and isinstance(self.d, int) and d == self.d:
+            return self._mk(self.n - n, self.d, a)
+        return self._mk(self.n * d - n * self.d, self.d * d, a)
+
+    def __rsub__(self, o):
+        return (-self).__add__(o)
+
+    def __neg__(self):
+        self._exact_only("negation")
+        return self._mk(-self.n, self.d, False)
+
+    def __pow__(self, e, mod=None):
+        if mod is not None or not isinstance(e, int) or e < 0 or e > 4:
+            raise Unsupported("pow of symbolic ratio")
+        r = self._mk(1, 1, False)
+        for _ in range(e):
+            r = r * self
+        return r
 
     def __repr__(self):
         return "<SymRatio>"
